@@ -22,7 +22,8 @@ RULE = ("One physical problem is drawn in canonical units (km/s, day, rad) toget
         "(P_min / P_max may be quoted in different units); one in five twins re-uses the base's JokerPrior object. (extreme) a "
         "40-120 epoch series is rescaled so that its best ln-likelihood sits just inside the range of exp() in km/s and outside "
         "it in m/s, cm/s or AU/yr: rejection / iterative sampling (memory, cache, file) with equal seeds must return the same "
-        "prior samples in both. Non-trivial: the twin differs from the base in >=2 unit slots, at least one on the prior side.")
+        "prior samples in both. Non-trivial: the twin differs from the base in >=2 unit slots, at least one on the prior side."
+        " Also: P_max in another unit than P_min with prior draws checked against the declared range; one twin in five re-uses the base's JokerPrior object; returned nonlinear columns physically equal; search 'extreme' (40-120 epochs rescaled so that the best ln-likelihood is inside the range of exp() in km/s and outside it in the twin unit; rejection / iterative x memory / cache / file, equal seeds -> same prior samples).")
 SHARDS = {"quick": 4, "thorough": 16}
 BUDGET = {"quick": 75, "thorough": 800}
 
